@@ -1,6 +1,6 @@
 /-
 X03 — the JSONP callback check against its declarative grammar: generic lemmas about patterns of the shape
-`[H][M]+[^N]` matched with `match` and a final `$`.  (May be imported by Props only; nothing here is linked into the driver.)
+`[H][M]+[N]` / `[H][M]+[^N]` matched with `match` and a final `$` or `\Z`.  (May be imported by Props only; nothing here is linked into the driver.)
 -/
 import PyramidModel.Lemmas.Rx
 import PyramidModel.Lemmas.RenderersSpec
@@ -59,27 +59,31 @@ theorem lang_plus_set (u : Ucd) (g : Bool) (M : List CItem) (w : Text) :
     | nil => exact absurd rfl hne
     | cons _ _ => simp
 
-/-- the language of `[H][M]+[^N]` -/
-theorem lang_head_mid_last (u : Ucd) (g : Bool) (H M N : List CItem) (w : Text) :
-    Lang u (.seq (.set false H) (.seq (.rep g 1 none (.set false M)) (.set true N))) w ↔
-      ∃ h mid l, w = h :: (mid ++ [l]) ∧ SetHas u H h ∧ mid ≠ [] ∧ (∀ c ∈ mid, SetHas u M c) ∧ ¬ SetHas u N l := by
+/-- membership of the last class, negated or not -/
+def LastOk (u : Ucd) (neg : Bool) (N : List CItem) (l : Char) : Prop :=
+  if neg then ¬ SetHas u N l else SetHas u N l
+
+/-- the language of `[H][M]+[N]` / `[H][M]+[^N]` -/
+theorem lang_head_mid_last (u : Ucd) (g neg : Bool) (H M N : List CItem) (w : Text) :
+    Lang u (.seq (.set false H) (.seq (.rep g 1 none (.set false M)) (.set neg N))) w ↔
+      ∃ h mid l, w = h :: (mid ++ [l]) ∧ SetHas u H h ∧ mid ≠ [] ∧ (∀ c ∈ mid, SetHas u M c) ∧ LastOk u neg N l := by
   constructor
   · intro hw
     simp only [Lang] at hw
     obtain ⟨x, y, rfl, ⟨h, rfl, hh⟩, x', y', rfl, hmid, ⟨l, rfl, hl⟩⟩ := hw
     have hmid' := (lang_plus_set u g M x').mp (by simpa only [Lang] using hmid)
-    refine ⟨h, x', l, by simp, by simpa using hh, hmid'.1, hmid'.2, by simpa using hl⟩
+    exact ⟨h, x', l, by simp, by simpa using hh, hmid'.1, hmid'.2, hl⟩
   · rintro ⟨h, mid, l, rfl, hh, hne, hall, hl⟩
     have hmid := (lang_plus_set u g M mid).mpr ⟨hne, hall⟩
     simp only [Lang]
-    refine ⟨[h], mid ++ [l], by simp, ⟨h, rfl, by simpa using hh⟩, mid, [l], rfl, ?_, ⟨l, rfl, by simpa using hl⟩⟩
+    refine ⟨[h], mid ++ [l], by simp, ⟨h, rfl, by simpa using hh⟩, mid, [l], rfl, ?_, ⟨l, rfl, hl⟩⟩
     simpa only [Lang] using hmid
 
-/-- `PATTERN.match(cb)` with a final `$`: some prefix is in the language and what is left is nothing or one line feed -/
-theorem accepts_match_dollar (sa un : Bool) (body : Rx) (hok : ok body = true) (cb : Text) :
-    accepts ⟨sa, true, body, .match, un⟩ cb = true ↔
-      ∃ c rest, cb = c ++ rest ∧ Lang Ucd.ascii body c ∧ (rest = [] ∨ rest = ['\n']) := by
-  simp only [accepts, List.any_eq_true, ite_true, dollarOk, Bool.or_eq_true, beq_iff_eq, Prod.exists]
+/-- `PATTERN.match(cb)`: some prefix is in the language and what is left satisfies the end anchor -/
+theorem accepts_match (sa un : Bool) (e : EndAnchor) (body : Rx) (hok : ok body = true) (cb : Text) :
+    accepts ⟨sa, e, body, .match, un⟩ cb = true ↔
+      ∃ c rest, cb = c ++ rest ∧ Lang Ucd.ascii body c ∧ e.ok rest = true := by
+  simp only [accepts, List.any_eq_true, Prod.exists]
   constructor
   · rintro ⟨c, rest, hmem, hd⟩
     obtain ⟨hcb, hl⟩ := run_sound Ucd.ascii body cb c rest hmem
@@ -95,25 +99,30 @@ def midItems : Rx → List CItem
   | .seq _ (.seq (.rep _ _ _ (.set false M)) _) => M
   | _ => []
 def lastItems : Rx → List CItem
-  | .seq _ (.seq _ (.set true N)) => N
+  | .seq _ (.seq _ (.set _ N)) => N
   | _ => []
+def lastNeg : Rx → Bool
+  | .seq _ (.seq _ (.set neg _)) => neg
+  | _ => false
 
-theorem accepts_of_shape (p : CbPattern) (hs : p = ⟨p.startAnchor, true,
-        .seq (.set false (headItems p.body)) (.seq (.rep true 1 none (.set false (midItems p.body))) (.set true (lastItems p.body))),
+/-- a pattern `[H][M]+[N]` (last class negated or not) with any end anchor, applied with `match` -/
+theorem accepts_of_shape (p : CbPattern) (hs : p = ⟨p.startAnchor, p.endAnchor,
+        .seq (.set false (headItems p.body)) (.seq (.rep true 1 none (.set false (midItems p.body))) (.set (lastNeg p.body) (lastItems p.body))),
         .match, true⟩) (hok : ok p.body = true) (cb : Text) :
     accepts p cb = true ↔
       ∃ h mid l tail, cb = h :: (mid ++ l :: tail) ∧ SetHas Ucd.ascii (headItems p.body) h ∧ mid ≠ [] ∧
-        (∀ c ∈ mid, SetHas Ucd.ascii (midItems p.body) c) ∧ ¬ SetHas Ucd.ascii (lastItems p.body) l ∧ (tail = [] ∨ tail = ['\n']) := by
-  have hb : p.body = .seq (.set false (headItems p.body)) (.seq (.rep true 1 none (.set false (midItems p.body))) (.set true (lastItems p.body))) := by
+        (∀ c ∈ mid, SetHas Ucd.ascii (midItems p.body) c) ∧ LastOk Ucd.ascii (lastNeg p.body) (lastItems p.body) l ∧
+        p.endAnchor.ok tail = true := by
+  have hb : p.body = .seq (.set false (headItems p.body)) (.seq (.rep true 1 none (.set false (midItems p.body))) (.set (lastNeg p.body) (lastItems p.body))) := by
     have := congrArg CbPattern.body hs
     simpa using this
-  rw [hs, accepts_match_dollar _ _ _ (by rw [← hb]; exact hok)]
+  rw [hs, accepts_match _ _ _ _ (by rw [← hb]; exact hok)]
   simp only []
   constructor
   · rintro ⟨c, rest, rfl, hl, hd⟩
-    obtain ⟨h, mid, l, rfl, h1, h2, h3, h4⟩ := (lang_head_mid_last _ _ _ _ _ c).mp hl
+    obtain ⟨h, mid, l, rfl, h1, h2, h3, h4⟩ := (lang_head_mid_last _ _ _ _ _ _ c).mp hl
     exact ⟨h, mid, l, rest, by simp, h1, h2, h3, h4, hd⟩
   · rintro ⟨h, mid, l, tail, rfl, h1, h2, h3, h4, hd⟩
-    exact ⟨h :: (mid ++ [l]), tail, by simp, (lang_head_mid_last _ _ _ _ _ _).mpr ⟨h, mid, l, rfl, h1, h2, h3, h4⟩, hd⟩
+    exact ⟨h :: (mid ++ [l]), tail, by simp, (lang_head_mid_last _ _ _ _ _ _ _).mpr ⟨h, mid, l, rfl, h1, h2, h3, h4⟩, hd⟩
 
 end Pyr.Render
